@@ -29,8 +29,20 @@ func c13BuildTypes(pos, bad string) []ggql.Type {
 	_ = f.AddArg(&ggql.Arg{Base: ggql.Base{N: nm("field-argument", "arg")}, Type: ref("Int")})
 	_ = o.AddField(f)
 	_ = o.AddField(&ggql.FieldDef{Base: ggql.Base{N: nm("interface-field", "x")}, Type: ref("Int")})
+	// deprecated members, said the way the parser says it: a use of the directive by name
+	dep := func(reason string) []*ggql.DirectiveUse {
+		du := &ggql.DirectiveUse{Directive: ref("deprecated")}
+		if reason != "" {
+			du.Args = map[string]*ggql.ArgValue{"reason": {Arg: "reason", Value: reason}}
+		}
+		return []*ggql.DirectiveUse{du}
+	}
+	old := &ggql.FieldDef{Base: ggql.Base{N: "old"}, Type: ref("Int")}
+	old.Dirs = dep("gone")
+	_ = o.AddField(old)
 	e := &ggql.Enum{Base: ggql.Base{N: nm("enum", "ZzColor")}}
 	_ = e.AddValue(&ggql.EnumValue{Value: ggql.Symbol(nm("enum-value", "RED"))})
+	_ = e.AddValue(&ggql.EnumValue{Value: "BLUE", Directives: dep("why")})
 	in := &ggql.Input{Base: ggql.Base{N: nm("input", "ZzIn")}}
 	_ = in.AddField(&ggql.InputField{Base: ggql.Base{N: nm("input-field", "n")}, Type: ref("Int")})
 	u := &ggql.Union{Base: ggql.Base{N: nm("union", "ZzU")}, Members: []ggql.Type{o}}
